@@ -16,14 +16,14 @@ NOTE_Q = ("Trusted: TLC, the TLA+ value model EQLValues (validated against CPyth
 TABLE = {
     "C01": dict(text="TLC enumerates every single-variable condition tree of the bounded builder machine (BFS) and random-walks to "
                      "larger ones; each is executed on the real library over several worlds and the recorded result sequence is "
-                     "judged by TLC against the denotation RowSeq (order, multiplicity, membership).",
+                     "judged by TLC against the denotation RowSeq (order, multiplicity, membership). Also: the query without any condition, constant (variable-free) conditions, domains whose distinct objects compare equal, and TLC model-checks the evaluator mechanism model (EQLMech) against the denotation.",
                 technique="TLA+ denotational spec (EQLSem) + TLC-generated programs replayed into the library + TLC batch trace validation",
                 ref="7 C01"),
     "C02": dict(text="As C01 for 2- and 3-variable queries (joins, self-joins, chained attributes, every selection list of the "
-                     "generator); rows judged as multiset/set of satisfying assignments incl. values of selected expressions.",
+                     "generator); rows judged as multiset/set of satisfying assignments incl. values of selected expressions. Also all three-condition trees, left-deep four-condition chains and condition-less queries; TLC model-checks the mechanism models with duplicate suppression (EQLMech2) and result caches (EQLMech3) against the denotation and the trace specification requires them to predict the exact row sequences.",
                 technique="TLA+ denotational spec + TLC-generated programs replayed + TLC trace validation", ref="7 C02"),
     "C03": dict(text="For every generated condition c: c, not_(c), not_(not_(c)) built from scratch and each judged by TLC against "
-                     "Holds(not c) = ~Holds(c); double negation must reproduce c's rows.",
+                     "Holds(not c) = ~Holds(c); double negation must reproduce c's rows. Also not_ applied to the descriptor itself, re-evaluated under both cache configurations, and predicate calls on the variables themselves.",
                 technique="TLA+ denotational spec + TLC-generated programs (negation at any depth) replayed + TLC trace validation",
                 ref="7 C03"),
     "C06": dict(text="the(d).evaluate() twice and an(d) on generated descriptions with all variables selected over small domains; "
@@ -49,7 +49,7 @@ TABLE = {
                      "single contextvars context; threads/asyncio tasks are not modelled."),
     "C19": dict(text="G1/G2 programs (operands, selected attribute expressions, predicate arguments) executed on worlds whose "
                      "values are mostly 0, '', [], None and judged by TLC against the denotation (Val never consults truthiness); "
-                     "plus an oracle-free twin: program and world shifted away from falsy must return the same rows by index.",
+                     "plus an oracle-free twin: program and world shifted away from falsy must return the same rows by index. Also calls whose arguments are falsy, and attribute expressions selected on their own (None included).",
                 technique="TLA+ denotational spec + TLC-generated programs replayed on falsy-rich data + TLC trace validation + metamorphic shift twin",
                 ref="7 C19"),
     "C07": dict(text="TLC checks on the Lazy state machine (every qualifying set over a 4-element domain, every history of "
@@ -81,7 +81,7 @@ TABLE = {
                 ref="7 C05"),
     "C10": dict(text="TLC's builder machine generates for_all(u, c) / for_all(u.n, c) with every condition tree over leaves on the "
                      "universal variable, the free variable or both, alone or conjoined with outer conditions; each is executed "
-                     "and TLC judges the rows against the universally quantified statement of the denotation.",
+                     "and TLC judges the rows against the universally quantified statement of the denotation. Also a second free variable that occurs only under the quantifier (random and textbook worlds) and sub-query universals; TLC model-checks the mechanism of for_all (EQLMech3 stage B4) against the denotation and the trace specification requires it to predict the exact rows of plain-universal programs.",
                 technique="TLA+ denotational spec (forall) + TLC-generated programs replayed + TLC trace validation", ref="7 C10"),
     "C15": dict(text="Generated queries use sub-queries (entity and set_of, over the enclosing or another variable) as conditions "
                      "combined by and_/or_ with each other and with plain conditions, and as comparison operands (conjunctive "
@@ -90,40 +90,40 @@ TABLE = {
                 ref="7 C15"),
     "C16": dict(text="Generated queries over flatten(e) for list, tuple, scalar and object-list sources, all selections of parent "
                      "and element, with and without conditions; TLC computes UNNEST (one row per element, parent binding kept) "
-                     "and compares as multiset when parent and element are selected.",
+                     "and compares as multiset when parent and element are selected. Also condition-less flatten queries, two flattens of one parent, and flattened scalars that may be None.",
                 technique="TLA+ denotational spec (flatten = derived variable slot) + TLC-generated programs replayed + TLC trace validation",
                 ref="7 C16"),
     "C17": dict(text="Generated membership tests of another variable against concatenate(e) and their negations, combined with "
                      "other conditions, plus an(entity(concatenate(e))) whose single row must equal the list of all elements in "
-                     "domain and inner order; judged by TLC against ConcatFrom.",
+                     "domain and inner order; judged by TLC against ConcatFrom. Also concatenate selected through entity / set_of (alone or next to a free variable, over a variable or a sub-query, re-evaluated under both cache configurations), concatenate(flatten(..)), sub-query parents, and scalars that may be None.",
                 technique="TLA+ denotational spec (ConcatFrom) + TLC-generated programs replayed + TLC trace validation", ref="7 C17"),
     "C14": dict(text="TLC explores every history (depth-bounded, plus random walks) of concrete construction in three styles over a "
                      "three-level hierarchy (decorated, decorated by inheritance, undecorated with hand-written __init__), symbolic "
                      "construction, rule inference, clearing and no-domain queries; histories are replayed and TLC computes the "
                      "expected registry contents for every query, and checks symbolic construction registers nothing and runs "
-                     "no __init__.",
+                     "no __init__. Also a hierarchy whose base class has a hand-written __new__.",
                 technique="TLA+ state machine (RegistryOps/Registry) + exported histories replayed + TLC trace validation", ref="7 C14",
                 note="Trusted: TLC, RegistryOps, the registry replay runner (identifies objects by construction order)."),
     "C11": dict(text="Rules infer(entity(T(f=e...), body)) with generated two-variable bodies and heads (variables, attribute "
                      "expressions incl. falsy values, constants, None; classes P and R) are evaluated in rule mode; every produced "
                      "instance is logged (class, fields by identity, newness) and TLC compares the multiset with one instance per "
-                     "satisfying assignment of the denotation.",
+                     "satisfying assignment of the denotation. Also heads whose arguments are sub-queries (correlated and uncorrelated), bodies over independent conditions, and histories that start with an abandoned evaluation.",
                 technique="TLA+ denotational spec (InferSeq) + TLC-generated rules replayed + TLC trace validation", ref="7 C11"),
     "C13": dict(text="TLC enumerates predicate-form terms (every subset of 4 fields, keyword/positional, constants incl. falsy, "
                      "variable and nested-term values) and typed declarations over mixed-class domains (let, T(From(d)), term, "
                      "shared From instance); each is built in term form and in explicit form, both judged against the "
-                     "denotation (type filter + one equality per field) and against each other.",
+                     "denotation (type filter + one equality per field) and against each other. Also a class with a keyword-only field between positional ones and declarations whose domain is itself a query.",
                 technique="TLA+ denotational spec (FieldsHold, IsInst) + TLC-enumerated terms replayed in both forms + TLC trace validation",
                 ref="7 C13"),
     "C12": dict(text="TLC's builder machine (Add, with refinement, with alternative, leave block) enumerates every rule-tree shape up "
                      "to 3-4 branches x branch conditions over the base's variables (1 and 2 variables) and random-walks to 6 "
                      "branches; each tree is built through the API and evaluated; TLC's ripple-down interpreter Fire computes, per "
-                     "assignment, which tagged conclusion must be produced and compares the multiset.",
+                     "assignment, which tagged conclusion must be produced and compares the multiset. Also a second refinement block per branch; TLC model-checks that the operator structure rule.py wires equals the ripple-down reading for every tree and valuation (RuleMech, also with next_rule branches); trees with next_rule are executed as an observation outside the property.",
                 technique="TLA+ reference interpreter (Fire) + TLC-generated rule trees replayed + TLC trace validation", ref="7 C12"),
     "C09": dict(text="Each predicate-using query (an drained, the) and each rule (infer) is built once per ambient mode (none, "
                      "symbolic_mode, rule_mode, nested) and evaluated under it; TLC judges every evaluation against the denotation "
                      "and requires equal answers; the harness's counting predicates report whether any user predicate observed "
-                     "symbolic mode, and inferred objects must be real instances.",
+                     "symbolic mode, and inferred objects must be real instances. Also user predicates that build and evaluate a query of their own, and variables whose domain is a query with an evaluation abandoned inside a block.",
                 technique="TLA+ denotational spec + TLC-generated programs replayed under every ambient mode + TLC trace validation",
                 ref="7 C09"),
     "C18": dict(text="TLC model-checks that every rewrite of EQLSyntax!Variants preserves the denotation for all programs of the "
